@@ -40,6 +40,13 @@ CORPUS = [
       "                x[node - self.taxa_count] = heights[node] - torch.maximum(\n                    heights[right], heights[left]\n                )", benign=True),
     Mut('c06-benign-guarded-choice', TM, 'ReparameterizedTimeTreeModel.cpu', 'self.transform = type(self.transform)(self)',
         'if isinstance(self.transform, GeneralNodeHeightTransform):\n    self.transform = GeneralNodeHeightTransform(self)\nelse:\n    self.transform = DifferenceNodeHeightTransform(self)', benign=True),
+    T('c06-branch-lengths-share-the-heights-flag', TM, "        if self.branch_lengths_need_update:\n            heights = self.node_heights\n", "        if self.heights_need_update or self._branch_lengths is None:\n            heights = self.node_heights\n",
+      expect=[('C06.H', 'flags::')]),
+    T('c06-benign-branch-flag-renamed-test', TM, "        if self.branch_lengths_need_update:\n            heights = self.node_heights\n", "        if self.branch_lengths_need_update is True:\n            heights = self.node_heights\n", benign=True),
+    T('c06-transform-cache-on', TH, "    def __init__(self, tree: 'TimeTreeModel', cache_size=0) -> None:  # noqa: F821\n        super().__init__(cache_size=cache_size)\n        self.tree = tree\n        self.taxa_count",
+      "    def __init__(self, tree: 'TimeTreeModel', cache_size=1) -> None:  # noqa: F821\n        super().__init__(cache_size=cache_size)\n        self.tree = tree\n        self.taxa_count", expect=[('C06.H', 'transform-cache::')]),
+    T('c06-leaf-heights-in-default-precision', TM, "        self.sampling_times = torch.tensor(leaf_heights)", "        self.sampling_times = torch.tensor(leaf_heights) - 0.0", expect=[('C06.T', 'TimeTreeModel.update_leaf_heights')]),
+    T('c06-benign-leaf-heights-explicit-dtype', TM, "        self.sampling_times = torch.tensor(leaf_heights)", "        self.sampling_times = torch.tensor(leaf_heights, dtype=torch.float64) - 0.0", benign=True),
 ]
 for m in CORPUS:
     if m.id == 'c06-forward-roles':
